@@ -44,6 +44,13 @@ def root_pool(name):
     if name == "wide":
         c = E.cst(0x80, W)
         return [a, c, (a ** b), E.mem(a, W)]
+    if name == "slcsf":
+        # a slice whose sign annotation differs from its base register's
+        s4 = a[0:4]
+        s4.sf = True
+        t4 = b[4:8]
+        t4.sf = True
+        return [a, b, s4, t4]
     if name == "cmp":
         x = E.comp(W)
         x[0:W] = b
@@ -52,7 +59,7 @@ def root_pool(name):
     raise ValueError(name)
 
 
-ROOTS = ["plain", "signed", "shapes", "cmp", "wide"]
+ROOTS = ["plain", "signed", "shapes", "cmp", "wide", "slcsf"]
 
 BINOPS = ["+", "-", "*", "&", "|", "^", "<<", ">>", ".>>", "==", "!=", "<.", ">=.", "<", "<=", ">", ">=",
           "**", "/", "%", ">>>", "<<<"]
@@ -333,8 +340,29 @@ def m_ops():
                 ops.append(("wm", size, off, val))
     for rg in MREGS:
         ops.append(("r", rg))
-    ops += [("rm", 8, 0), ("rm", 32, 0), ("rm", 8, 1), ("copy",), ("mcopy",)]
+    ops += [("rm", 8, 0), ("rm", 32, 0), ("rm", 8, 1), ("copy",), ("mcopy",), ("ru", "r"), ("ru", "s")]
     return ops
+
+
+OBSERVERS = ("r", "rm", "copy", "mcopy", "ru")
+
+
+def m_content(m, E, R, envs):
+    """everything observable of the mapper: whole registers, unaligned sub-ranges, memory window"""
+    out = []
+    for rg in MREGS:
+        for (lo, hi) in ((0, MW), (0, 16), (4, 12), (1, 2)):
+            try:
+                x = m(R[rg]) if (lo, hi) == (0, MW) else m(R[rg][lo:hi])
+                out.append(bv.fingerprint(x, envs))
+            except Exception as ex:
+                out.append(("exc", type(ex).__name__))
+    for off in (0, 1, 2, 3, 4):
+        try:
+            out.append(bv.fingerprint(m(E.mem(R["p"], 8, disp=off)), envs))
+        except Exception as ex:
+            out.append(("exc", type(ex).__name__))
+    return tuple(out)
 
 
 def m_value(E, R, val, size, k):
@@ -392,6 +420,13 @@ def m_run(hist):
                 c = mapper()
                 c.setmemory(m.mmap.copy())
                 kept.append(("copy of m.mmap after step %d" % k, c, "mapper", m_snapshot_mapper(c, E, R, envs)))
+            elif op[0] == "ru":
+                # read a register and use the result as an operand (simplifying the new expression, slicing the result)
+                x = m[R[op[1]]]
+                kept.append(("m[%s] read after step %d" % (op[1], k), x, "exp", bv.fingerprint(x, envs)))
+                y = (x + 1)
+                y.simplify()
+                z = x[4:12]
         except Exception as ex:
             return out, n      # raising operations are C01/C17 business
         if op[0] == "w":
@@ -421,6 +456,29 @@ def m_run(hist):
                             "history %r: the %s changed when step %d %r was applied to the mapper it came from: %r -> %r (now %s)" % (
                                 hist, desc, k, op, f0, f1, str(obj).replace("\n", "; ")[:160])))
                 return out, n
+    # observers (reads, copies, uses of results) must not change what the mapper holds: compare with a replay of the
+    # writes alone
+    if any(o[0] in OBSERVERS for o in hist):
+        n += 1
+        try:
+            m2 = mapper()
+            for k, op in enumerate(hist):
+                if op[0] == "w":
+                    _, rg, lo, hi, val = op
+                    loc = R[rg] if (lo, hi) == (0, MW) else R[rg][lo:hi]
+                    m2[loc] = m_value(E, R, val, hi - lo, k)
+                elif op[0] == "wm":
+                    _, size, off, val = op
+                    m2[E.mem(R["p"], size, disp=off)] = m_value(E, R, val, size, k)
+            c1, c2 = m_content(m, E, R, envs), m_content(m2, E, R, envs)
+        except Exception:
+            c1 = c2 = None
+        if c1 != c2:
+            idx = next(i for i, (x, y) in enumerate(zip(c1, c2)) if x != y)
+            obs = [o[0] for o in hist if o[0] in OBSERVERS]
+            out.append(("C13", ("live-mapper", "observer-effect", "+".join(sorted(set(obs)))),
+                        "history %r: the mapper's content differs from a replay of its writes alone (observation #%d: %r vs %r): "
+                        "reading, copying or using results changed the map" % (hist, idx, c1[idx], c2[idx])))
     return out, n
 
 
@@ -437,7 +495,7 @@ def mapper_shard(args):
                 continue
             # only histories that obtain something before the last step (C13) or end with a register write (C12)
             # can violate an invariant that shorter histories did not already violate
-            if want == "C13" and not any(o[0] in ("r", "rm", "copy", "mcopy") for o in hist[:-1]):
+            if want == "C13" and not any(o[0] in OBSERVERS for o in hist[:-1]) and hist[-1][0] != "ru":
                 continue
             if want == "C12" and (hist[-1][0] != "w" or any(o[0] != "w" for o in hist)):
                 continue
